@@ -24,7 +24,12 @@ class C08(ProgCheck):
             "mixing the forms, each later call must run its whole body (it prints at entry and at its tail) and return as a fresh call; "
             "recursion-depth histories (first used at depth d1, then d2, then d1 again, d in 1..256). Family receiver-forms: in-place "
             "members on NON-storage receivers ((s + null).concat(x), substr(s,0).concat(y), idf(t).put(0,1), idf(s).concat, literals, "
-            "constructor results) followed by a print of the variable that must be unchanged. distinct = program text.")
+            "constructor results) followed by a print of the variable that must be unchanged. Family reclimit-after-cache: runaway "
+            "recursion (direct F -> F, mutual P -> Q -> P) entered through a wrapper that puts k frames below it, k in {0,1,2,100,200,254,255}, "
+            "AFTER histories that filled the per-function context caches (finished recursions of depth 1, 10, 250, 255, finished ones "
+            "through a wrapper, runs that hit the limit, mixed F / P / wrapper histories), every function printing at entry: the run must "
+            "end with the recursion-limit error after exactly 255 - k chain levels, with the same printed output as the model's and as "
+            "the same probe after every other history (the history-free one included). distinct = program text.")
 
     def gen_cases(self):
         quick = self.tier == "quick"
@@ -185,6 +190,40 @@ class C08(ProgCheck):
                     continue
                 add([rec2, guarded(("fcall", "R", [I(d1)]), "d1"), guarded(("fcall", "R", [I(d2)]), "d2"), guarded(("fcall", "R", [I(d1)]), "d1again")],
                     {"family": "depth-history"})
+        # ---- the recursion limit after histories that filled the per-function caches of contexts (seeded change C08-m4: the depth is only
+        # tested when a NEW context is created). The recursion-limit error is not catchable: a history that runs into it is a first
+        # program of its own (prog2_case: same context, the functions and their caches persist), the probe is the second program.
+        BIG = I(100000)
+        N7, M7, K7 = ("var", "N7"), ("var", "M7"), ("var", "K7")
+        def chain(me, nxt, tag):
+            return fdef(me, ["N7", "M7"], "i", [("print", [S(tag + " "), N7]), ("if", [(("bin", "GE", N7, M7), [("return", N7)])]),
+                                               ("return", ("fcall", nxt, [("bin", "ADD", N7, I(1)), M7]))])
+        def wrapper(me, target):       # me(k) puts k + 1 frames below a runaway call of target
+            return fdef(me, ["K7"], "i", [("if", [(("bin", "GT", K7, I(0)), [("return", ("fcall", me, [("bin", "SUB", K7, I(1))]))])]),
+                                          ("return", ("fcall", target, [I(1), BIG]))])
+        hh = fdef("H", ["K7", "M7"], "i", [("if", [(("bin", "GT", K7, I(0)), [("return", ("fcall", "H", [("bin", "SUB", K7, I(1)), M7]))])]),
+                                           ("return", ("fcall", "F", [I(1), M7]))])       # a FINISHED recursion of F entered k + 1 frames up
+        qstub = fdef("Q", ["N7", "M7"], "i", [("return", I(0))])
+        rlib = [chain("F", "F", "f"), wrapper("G", "F"), hh, qstub, chain("P", "Q", "p"), chain("Q", "P", "q"), wrapper("GP", "P")]
+        fin = lambda call, tag: guarded(call, tag)
+        FC = lambda nm, *a: ("fcall", nm, [x if isinstance(x, tuple) else I(x) for x in a])
+        histories = [
+            ("none", []), ("F1", [fin(FC("F", 1, 1), "h")]), ("F10", [fin(FC("F", 1, 10), "h")]), ("F250", [fin(FC("F", 1, 250), "h")]),
+            ("F255", [fin(FC("F", 1, 255), "h")]), ("Ffail", [fin(FC("F", 1, BIG), "h")]), ("Gfail", [fin(FC("G", 99), "h")]),
+            ("Hfin", [fin(FC("H", 100, 100), "h")]), ("P250", [fin(FC("P", 1, 250), "h")]), ("Pfail", [fin(FC("P", 1, BIG), "h")]),
+            ("mixed-finished", [fin(FC("F", 1, 250), "h0"), fin(FC("P", 1, 250), "h1"), fin(FC("H", 50, 200), "h2")]),
+            ("finished-then-failed", [fin(FC("F", 1, 10), "h0"), fin(FC("P", 1, 120), "h1"), fin(FC("GP", 150), "h2")]),
+        ]
+        nrl = 0
+        for hname, hist in histories:
+            for k in (0, 1, 2, 100, 200, 254, 255):
+                for wname, target in (("G", "F"), ("GP", "P")):
+                    probe = FC(target, 1, BIG) if k == 0 else FC(wname, k - 1)
+                    n += 1
+                    cases.append(self.prog2_case("c%d" % n, rlib + hist, [("print", [S("PHASE2")]), ("let", "Y", probe), ("print", [S("not reached")])],
+                                                 {"family": "reclimit-after-cache", "probe": "%s/%d" % (target, k), "frames": k, "history": hname}))
+                    nrl += 1
+        self.stats["reclimit_after_cache_cases"] = nrl
         # ---- in-place members on NON-storage receivers: they work on a copy, the variable behind is unchanged (repo 876bec0, a40085e)
         idt = fdef("IDT", ["T"], "?", [("return", ("var", "T"))])
         nr = 0
@@ -224,3 +263,28 @@ class C08(ProgCheck):
                     self.stats.setdefault("errrec_random", {})[kk] = self.stats.get("errrec_random", {}).get(kk, 0) + vv
         self.stats["cases"] = n
         return cases
+
+    def judge(self, c, iraw, m, stderr):
+        r = ProgCheck.judge(self, c, iraw, m, stderr)
+        probe = c.meta.get("probe")
+        if probe is None:
+            return r
+        # Spec-level oracle on the implementation alone: exactly 255 nested calls, whatever ran before
+        outcome, out, _ = self.split_impl(c, iraw)
+        if out is None:
+            return r
+        text = bytes.fromhex(out).decode("latin-1")
+        if "PHASE2\n" not in text:
+            return self.record_violation("the probe program did not start (history `%s`)" % c.meta["history"], c, outcome, m)
+        ph2 = text.split("PHASE2\n", 1)[1]
+        levels = sum(1 for ln in ph2.split("\n") if ln[:2] in ("f ", "p ", "q "))
+        seen = self.__dict__.setdefault("_phase2", {})
+        if levels != 255 - c.meta["frames"] or "not reached" in ph2:
+            return self.record_violation("runaway recursion entered %d frames up ran %d levels (expected %d = 255 - %d) after history `%s`" % (
+                c.meta["frames"], levels, 255 - c.meta["frames"], c.meta["frames"], c.meta["history"]), c, outcome, m)
+        second = (outcome or "").split(";")[-1]
+        ref = seen.setdefault(probe, (c.meta["history"], second, ph2))
+        if ref[1:] != (second, ph2):
+            return self.record_violation("the same call behaves differently after history `%s` than after history `%s`: outcome %s / %s, %d / %d lines" % (
+                c.meta["history"], ref[0], second, ref[1], ph2.count("\n"), ref[2].count("\n")), c, outcome, m)
+        return r
